@@ -1,30 +1,33 @@
 import RulioProofs.StateBasic
 
+set_option linter.unusedSimpArgs false
+set_option linter.unusedVariables false
+
 /-! # The matcher on the cascade pattern `{"deleteWith":[id]}`, and `ExtractTerms` facts -/
 
 /-! ## `BEq J` is lawful -/
 
 mutual
-theorem J.beq_eq : ∀ (a b : J), J.beq a b = true → a = b
+theorem J.beq_eq_st : ∀ (a b : J), J.beq a b = true → a = b
   | .null, b => by cases b <;> simp [J.beq]
   | .bool x, b => by cases b <;> simp [J.beq]
   | .num x, b => by cases b <;> simp [J.beq]
   | .str x, b => by cases b <;> simp [J.beq]
   | .arr xs, b => by
     cases b <;> simp only [J.beq, Bool.false_eq_true, false_imp_iff, reduceCtorEq]
-    intro h; rw [J.beqL_eq _ _ h]
+    intro h; rw [J.beqL_eq_st _ _ h]
   | .obj xs, b => by
     cases b <;> simp only [J.beq, Bool.false_eq_true, false_imp_iff, reduceCtorEq]
-    intro h; rw [J.beqO_eq _ _ h]
-theorem J.beqL_eq : ∀ (a b : List J), J.beqL a b = true → a = b
+    intro h; rw [J.beqO_eq_st _ _ h]
+theorem J.beqL_eq_st : ∀ (a b : List J), J.beqL a b = true → a = b
   | [], b => by cases b <;> simp [J.beqL]
   | x :: xs, b => by
     cases b with
     | nil => simp [J.beqL]
     | cons y ys =>
       simp only [J.beqL, Bool.and_eq_true]
-      intro h; rw [J.beq_eq _ _ h.1, J.beqL_eq _ _ h.2]
-theorem J.beqO_eq : ∀ (a b : List (String × J)), J.beqO a b = true → a = b
+      intro h; rw [J.beq_eq_st _ _ h.1, J.beqL_eq_st _ _ h.2]
+theorem J.beqO_eq_st : ∀ (a b : List (String × J)), J.beqO a b = true → a = b
   | [], b => by cases b <;> simp [J.beqO]
   | (k, x) :: xs, b => by
     cases b with
@@ -32,29 +35,29 @@ theorem J.beqO_eq : ∀ (a b : List (String × J)), J.beqO a b = true → a = b
     | cons y ys =>
       obtain ⟨l, y⟩ := y
       simp only [J.beqO, Bool.and_eq_true, beq_iff_eq]
-      intro h; rw [h.1.1, J.beq_eq _ _ h.1.2, J.beqO_eq _ _ h.2]
+      intro h; rw [h.1.1, J.beq_eq_st _ _ h.1.2, J.beqO_eq_st _ _ h.2]
 end
 
 mutual
-theorem J.beq_refl : ∀ (a : J), J.beq a a = true
+theorem J.beq_refl_st : ∀ (a : J), J.beq a a = true
   | .null => by simp [J.beq]
   | .bool x => by simp [J.beq]
   | .num x => by simp [J.beq]
   | .str x => by simp [J.beq]
-  | .arr xs => by simp only [J.beq]; exact J.beqL_refl xs
-  | .obj xs => by simp only [J.beq]; exact J.beqO_refl xs
-theorem J.beqL_refl : ∀ (a : List J), J.beqL a a = true
+  | .arr xs => by simp only [J.beq]; exact J.beqL_refl_st xs
+  | .obj xs => by simp only [J.beq]; exact J.beqO_refl_st xs
+theorem J.beqL_refl_st : ∀ (a : List J), J.beqL a a = true
   | [] => by simp [J.beqL]
-  | x :: xs => by simp only [J.beqL, Bool.and_eq_true]; exact ⟨J.beq_refl x, J.beqL_refl xs⟩
-theorem J.beqO_refl : ∀ (a : List (String × J)), J.beqO a a = true
+  | x :: xs => by simp only [J.beqL, Bool.and_eq_true]; exact ⟨J.beq_refl_st x, J.beqL_refl_st xs⟩
+theorem J.beqO_refl_st : ∀ (a : List (String × J)), J.beqO a a = true
   | [] => by simp [J.beqO]
   | (k, x) :: xs => by
-    simp only [J.beqO, Bool.and_eq_true, beq_self_eq_true, true_and]; exact ⟨J.beq_refl x, J.beqO_refl xs⟩
+    simp only [J.beqO, Bool.and_eq_true, beq_self_eq_true, true_and]; exact ⟨J.beq_refl_st x, J.beqO_refl_st xs⟩
 end
 
-instance : LawfulBEq J where
-  eq_of_beq := fun {a b} h => J.beq_eq a b h
-  rfl := fun {a} => J.beq_refl a
+instance stLawfulBEqJ : LawfulBEq J where
+  eq_of_beq := fun {a b} h => J.beq_eq_st a b h
+  rfl := fun {a} => J.beq_refl_st a
 
 /-! ## string constants used by the cascade pattern -/
 
